@@ -147,6 +147,9 @@ class FnCtx:
         l, r = node.left, node.comparators[0]
         if op in ("Is", "IsNot") and isinstance(r, ast.Constant) and r.value is None:
             c, t = self.ex(l, env)
+            if t == "optint":
+                code = "(match %s with OINone => true | _ => false end)" % c
+                return (code if op == "Is" else "(negb %s)" % code), "B"
             if not (isinstance(t, tuple) and t[0] == "opt"): fail(node, "`is None` on a value that cannot be None")
             code = "(match %s with None => true | Some _ => false end)" % c
             return (code if op == "Is" else "(negb %s)" % code), "B"
@@ -186,6 +189,10 @@ class FnCtx:
         if f == "np.isfinite" and len(args) == 1:
             c, t = self.ex(args[0], env)
             return "(fisfinite A %s)" % self.coerce(c, t, "F", node), "B"
+        if f == "np.isinf" and len(args) == 1:
+            c, t = self.ex(args[0], env)
+            c = self.coerce(c, t, "F", node)
+            return "(negb (fisfinite A %s) && feq A %s %s)" % (c, c, c), "B"       # not finite and not NaN
         if f in ("np.minimum", "np.maximum") and len(args) == 2:
             a, ta = self.ex(args[0], env); b, tb = self.ex(args[1], env)
             fn = "fminimum" if f == "np.minimum" else "fmaximum"
@@ -193,7 +200,12 @@ class FnCtx:
         if f in ("min", "max") and len(args) == 2:
             a, ta = self.ex(args[0], env); b, tb = self.ex(args[1], env)
             if ta == "Z" and tb == "Z": return "(Z.%s %s %s)" % (f, a, b), "Z"
-            fail(node, "min/max of floats")
+            if ta in ("Z", "F") and tb in ("Z", "F"):
+                # python's min(a, b) is `b if b < a else a`, max(a, b) is `b if b > a else a` (a NaN never wins a comparison)
+                a = self.coerce(a, ta, "F", node); b = self.coerce(b, tb, "F", node)
+                if f == "min": return "(if flt A %s %s then %s else %s)" % (b, a, b, a), "F"
+                return "(if flt A %s %s then %s else %s)" % (a, b, b, a), "F"
+            fail(node, "min/max")
         if f == "np.isscalar" and len(args) == 1:
             c, t = self.ex(args[0], env)
             if t in ("Z", "F"): return "true", "B"          # statically typed scalar parameter
@@ -265,6 +277,7 @@ class FnCtx:
             if t == "unit": code = "OITuple0"
             elif t == "none": code = "OINone"
             elif t == "Z": code = "(OIInt %s)" % code
+            elif t == "optint": pass
             else: fail(node, "return value for optint")
         elif isinstance(want, tuple) and want[0] == "opt":
             if t == "none": code = "None"
@@ -500,6 +513,22 @@ class FnCtx:
         return parts[0] if len(parts) == 1 else "(" + ", ".join(parts) + ")"
 
 
+class Rewriter(ast.NodeTransformer):
+    """replace every expression whose source text is a key of the kernel's rewrite table (outermost match first)"""
+    def __init__(self, table): self.table = table
+    def visit(self, node):
+        if isinstance(node, ast.expr):
+            src = ast.unparse(node)
+            if src in self.table:
+                new = ast.parse(self.table[src], mode="eval").body
+                return ast.copy_location(new, node)
+        return self.generic_visit(node)
+
+def rewrite_all(stmts, table):
+    if not table: return stmts
+    out = [ast.fix_missing_locations(Rewriter(table).visit(s)) for s in stmts]
+    return out
+
 class Translator:
     def __init__(self, src):
         self.src = src
@@ -545,7 +574,7 @@ class Translator:
         for p, t in m["params"]: env[p] = t
         def k_end(e):
             return ctx.finish("tt", "none", fn)
-        body = ctx.block(fn.body, env, k_end)
+        body = ctx.block(rewrite_all(fn.body, kern.rewrite), env, k_end)
         ret = m["ret"]
         rt = ty_code(ret if not isinstance(ret, tuple) or ret[0] != "rec" else ret)
         if isinstance(ret, tuple) and ret[0] == "rec": rt = ret[1]
@@ -559,17 +588,23 @@ class Translator:
     def emit_fragment(self, kern, frag):
         """a code fragment inside a function: statements located by frag['locate'], translated as a function of
         the declared parameters whose value is the variable frag['result']"""
-        stmts = frag["locate"](self.parse(kern.file))
-        ctx = FnCtx(self, kern, dict(ret=frag["ret"], partial=False, mut=False))
+        stmts = rewrite_all(frag["locate"](self.parse(kern.file)), kern.rewrite)
+        on_self = frag.get("on_self", False)       # the fragment reads / changes the object: translated like a method body
+        ctx = FnCtx(self, kern, dict(ret=frag["ret"], partial=frag.get("partial", False), mut=on_self))
         env = dict(frag["params"])
-        res = frag["result"]
+        if on_self: env["self"] = ("rec", kern.record, True)
+        res = frag.get("result")
         def k_end(e):
+            if res is None: return ctx.finish("tt", "none", stmts[0])
             if res not in e: raise Unsupported("fragment %s does not define %s" % (frag["name"], res))
             return ctx.finish(res.lstrip("_"), e[res], stmts[0])
         body = ctx.block(stmts, env, k_end)
         params = "".join(" (%s : %s)" % (p.lstrip("_"), ty_code(t)) for p, t in frag["params"])
+        rt = ty_code(frag["ret"])
+        if on_self: rt = "(%s * %s)" % (kern.record, rt); params = " (self : %s)" % kern.record + params
+        if frag.get("partial"): rt = "res %s" % rt; params = " (fuel : nat)" + params
         self.out.append("(* fragment of %s, %s line %d *)" % (frag["where"], kern.file, stmts[0].lineno))
-        self.out.append("Definition %s%s : %s :=\n %s." % (frag["name"], params, ty_code(frag["ret"]), body))
+        self.out.append("Definition %s%s : %s :=\n %s." % (frag["name"], params, rt, body))
 
 
 # ------------------------------------------------------------------ the kernels
@@ -606,6 +641,26 @@ def locate_merge_minfreq(tree):
                 raise Unsupported("merge_bins: shape of the `min_frequency` branch changed")
             return body[1:]
     raise Unsupported("merge_bins: `min_frequency` branch not found")
+
+def locate_fill_stats(tree):
+    fn = find_method(tree, "Histogram1D", "fill")
+    hits = [n for n in ast.walk(fn) if isinstance(n, ast.Assign) and ast.unparse(n.targets[0]) == "self._stats"
+            and isinstance(n.value, ast.Call) and ast.unparse(n.value.func) == "dataclasses.replace"]
+    if len(hits) != 1: raise Unsupported("Histogram1D.fill: the statistics update (dataclasses.replace) was not found exactly once")
+    if ast.unparse(hits[0].value.args[0]) != "self.statistics": raise Unsupported("Histogram1D.fill: statistics update no longer starts from self.statistics")
+    new = ast.Assign(targets=[ast.Name(id="new_stats", ctx=ast.Store())], value=hits[0].value)
+    ast.copy_location(new, hits[0]); ast.fix_missing_locations(new)
+    return [new]
+
+def locate_force_pair(tree):
+    fn = find_method(tree, "FixedWidthBinning", "_force_bin_existence")
+    if not (len(fn.body) == 1 and isinstance(fn.body[0], ast.If) and ast.unparse(fn.body[0].test) == "np.isscalar(values)"):
+        raise Unsupported("_force_bin_existence: scalar / array dispatch changed")
+    tail = fn.body[0].orelse
+    # [if np.size(values) == 0: return None; min_, max_ = np.min(values), np.max(values); <rest>]
+    if len(tail) < 3 or ast.unparse(tail[0].test) != "np.size(values) == 0" or ast.unparse(tail[1]) != "min_, max_ = (np.min(values), np.max(values))":
+        raise Unsupported("_force_bin_existence: head of the array branch changed: %s" % ast.unparse(tail[1]) if len(tail) > 1 else "?")
+    return tail[2:]
 
 def kernels(tr):
     fw = Kernel(name="FW", file="binnings.py", cls="FixedWidthBinning", record="fwst", prefix="fw", ctor_name=None,
@@ -647,22 +702,26 @@ def kernels(tr):
     ]
     return fw, st, mb
 
-HEADER = ["(** GENERATED by tools/pytrans.py from %s - do not edit; regenerated on every build. *)",
+HEADER = ["(** GENERATED by tools/pytrans.py from the current source of physt (%s) - do not edit; regenerated on every build. *)",
           "From Physt Require Export PyArith.", "Set Implicit Arguments.", "Section PySrc.", "Context {F : Type} (A : arith F).", ""]
 
 def build_fw(src):
     tr = Translator(src); fw, st, mb = kernels(tr)
-    o = tr.out; o.extend([HEADER[0] % src] + HEADER[1:])
+    o = tr.out; o.extend([HEADER[0] % "src/physt"] + HEADER[1:])
     tr.emit_record(fw); o.append("")
     cls = find_class(tr.parse(fw.file), fw.cls)
     for m in fw.methods:
         tr.emit_method(fw, cls, m); o.append("")
+    # the array branch of _force_bin_existence after numpy reduced the batch to its minimum and maximum
+    tr.emit_fragment(fw, dict(name="g_fw_force_min_max", where="FixedWidthBinning._force_bin_existence (array branch)", locate=locate_force_pair,
+                              params=[("min_", "F"), ("max_", "F"), ("includes_right_edge", ("opt", "B"))], ret="optint", on_self=True, partial=True))
+    o.append("")
     o.append("End PySrc.")
     return "\n".join(o) + "\n"
 
 def build_stats(src):
     tr = Translator(src); fw, st, mb = kernels(tr)
-    o = tr.out; o.extend([HEADER[0] % src] + HEADER[1:])
+    o = tr.out; o.extend([HEADER[0] % "src/physt"] + HEADER[1:])
     # defaults of the dataclass fields, then the module constant INVALID_STATISTICS
     sttree = tr.parse(st.file)
     stcls = find_class(sttree, st.cls)
@@ -690,12 +749,20 @@ def build_stats(src):
     o.append("")
     for m in st.methods:
         tr.emit_method(st, stcls, m); o.append("")
+    # the statistics update inside Histogram1D.fill (histogram1d.py)
+    fk = Kernel(name="FS", file="histogram1d.py", cls="Histogram1D", record=None, prefix="fs", fields=[], dropped=set(), defaults={},
+                rewrite={"self.statistics": "stats"}, methods=[])
+    fk.field_types = {}; fk.method = lambda name: None
+    tr.emit_fragment(fk, dict(name="g_fill_stats", where="Histogram1D.fill (statistics update)", locate=locate_fill_stats,
+                              params=[("stats", ("rec", "pystats", True)), ("value", "F"), ("weight", "F")], result="new_stats",
+                              ret=("rec", "pystats", True)))
+    o.append("")
     o.append("End PySrc.")
     return "\n".join(o) + "\n"
 
 def build_merge(src):
     tr = Translator(src); fw, st, mb = kernels(tr)
-    o = tr.out; o.extend([HEADER[0] % src] + HEADER[1:])
+    o = tr.out; o.extend([HEADER[0] % "src/physt"] + HEADER[1:])
     for fr in mb.frags:
         tr.emit_fragment(mb, fr); o.append("")
     o.append("End PySrc.")
